@@ -205,20 +205,22 @@ impl BasicLexer {
     }
 
     fn trim_end(tokens: &mut Vec<Token>) {
-        if let Some(Token::Whitespace(_)) = tokens.last() {
-            tokens.pop();
-        }
-        if let Some(Token::Unknown(_)) = tokens.last() {
-            if let Some(Token::Unknown(s)) = tokens.pop() {
-                let trimmed = s.trim_end();
-                if trimmed.is_empty() {
-                    // nothing but white space (a carriage return, a no-break space ...)
-                    if let Some(Token::Whitespace(_)) = tokens.last() {
-                        tokens.pop();
+        // nothing that is only white space (a carriage return, a no-break space ...) ends a line
+        loop {
+            match tokens.pop() {
+                Some(Token::Whitespace(_)) => continue,
+                Some(Token::Unknown(s)) => {
+                    let trimmed = s.trim_end();
+                    if !trimmed.is_empty() {
+                        tokens.push(Token::Unknown(trimmed.into()));
+                        break;
                     }
-                } else {
-                    tokens.push(Token::Unknown(trimmed.into()));
                 }
+                Some(token) => {
+                    tokens.push(token);
+                    break;
+                }
+                None => break,
             }
         }
     }
